@@ -182,7 +182,10 @@ def generate():
     items.append(str_list_def("stmts_basic_invoke", _stmts(bi)))
     bh = resolve_ifs(BASIC_H)
     items.append(str_list_def("stmts_is_running_in", _stmts(strip_comments(function_body(bh, r"BasicExecutor::is_running_in\s*\(")))))
-    items.append(str_list_def("stmts_scope_ctor", _stmts(strip_comments(function_body(bh, r"BasicExecutor::RunnerScope::RunnerScope\s*\(\s*BasicExecutor&")))))
+    m = re.search(r"BasicExecutor::RunnerScope::RunnerScope\(\s*BasicExecutor&\s*new_current\)\s*noexcept\s*:\s*_old_current\s*\{\s*BasicExecutor::current\(\)\s*\}\s*\{\s*BasicExecutor::current\(\)\s*=\s*&new_current;\s*\}", strip_comments(bh))
+    if not m:
+        raise ExtractError("RunnerScope constructor has a new shape")
+    items.append(str_def("scopeCtor", _norm(m.group(0))))
     items.append(str_list_def("stmts_scope_dtor", _stmts(strip_comments(function_body(bh, r"BasicExecutor::RunnerScope::~RunnerScope\s*\(")))))
 
     # ---- the index-level shape of the queue operations the ticket specification speaks about
